@@ -407,3 +407,78 @@ Proof.
   exact (GLP.source_contain_cover g imgf rs fs i cover rgt btm px py bw bh posx posy ml mt pl pt bl bt r).
 Qed.
 Print Assumptions C13_source_contain_cover.
+
+(* ---------------------------------------------------------------- source: inline_replaced_box_layout and
+   inline_replaced_box_width_height of layout/replaced.py, regenerated (gen/GenInlineReplaced.v), whole bodies; their
+   callees (which mutate the box) are oracle statements that hand the box back.
+   GI.ibox mt mr mb ml rest: the box, its four margins (Some number / None = 'auto') first, `rest` any other content;
+   GI.ibox_used: the same box with every margin m replaced by GI.used_margin m (0 for 'auto', m otherwise);
+   GI.wh_oracle: inline_replaced_box_width_height called on (ibox_used .., cb) leaves the box as box'.
+   CSS 2.1 10.3.2 / 10.6.2 ("a computed value of 'auto' for margin-* becomes a used value of 0"): the margins are
+   zeroed BEFORE the width / height are resolved, nothing else is touched, the function leaves what the resolution
+   leaves, returns None and never raises. *)
+Require WV.gen.GenInlineReplaced WV.proofs.C13_gen_inline.
+Module GI := WV.proofs.C13_gen_inline.
+
+Theorem C13_source_inline_replaced_box_layout (O : Py.qops) mt mr mb ml rest cb ret box' :
+  GI.is_value cb -> GI.wh_oracle O mt mr mb ml rest cb ret box' ->
+  Py.run O GenInlineReplaced.inline_replaced_box_layout_body
+    [("box", GI.ibox mt mr mb ml rest); ("containing_block", cb)]%string
+    (GI.leaves_box box') (fun _ => False).
+Proof. exact (GI.gen_inline_replaced_box_layout O mt mr mb ml rest cb ret box'). Qed.
+Print Assumptions C13_source_inline_replaced_box_layout.
+
+(* what that box is: the four margins are the used margins, every other field is the one the box had *)
+Theorem C13_source_inline_used_margins mt mr mb ml rest :
+  PyTac.fieldv (GI.ibox_used mt mr mb ml rest) "margin_top" = Py.VNum (GI.used_margin mt) /\
+  PyTac.fieldv (GI.ibox_used mt mr mb ml rest) "margin_right" = Py.VNum (GI.used_margin mr) /\
+  PyTac.fieldv (GI.ibox_used mt mr mb ml rest) "margin_bottom" = Py.VNum (GI.used_margin mb) /\
+  PyTac.fieldv (GI.ibox_used mt mr mb ml rest) "margin_left" = Py.VNum (GI.used_margin ml) /\
+  (forall k, k <> "margin_top" -> k <> "margin_right" -> k <> "margin_bottom" -> k <> "margin_left" ->
+             PyTac.fieldv (GI.ibox_used mt mr mb ml rest) k = Py.lookup k rest)%string.
+Proof. exact (GI.ibox_used_fields mt mr mb ml rest). Qed.
+Print Assumptions C13_source_inline_used_margins.
+
+(* inline_replaced_box_width_height: GI.wh_plan bw bh is the list of callees in calling order -
+   width and height both 'auto': replaced_box_width.without_min_max, replaced_box_height.without_min_max (the functions
+   under the min/max decorators), then min_max_auto_replaced (CSS 2.1 10.4, the table for both-auto replaced elements);
+   otherwise the decorated replaced_box_width then the decorated replaced_box_height (10.3.2 before 10.6.2) and no
+   min_max_auto_replaced.  GI.plan_run: each callee is called on the box the previous one left (the width callees also
+   get the containing block); the function leaves the box the last one leaves, returns None, never raises. *)
+Theorem C13_source_inline_replaced_box_width_height (O : Py.qops) bw bh rest cb final :
+  GI.is_value cb -> GI.plan_run O (GI.wh_plan bw bh) cb (GI.whbox bw bh rest) final ->
+  Py.run O GenInlineReplaced.inline_replaced_box_width_height_body
+    [("box", GI.whbox bw bh rest); ("containing_block", cb)]%string
+    (GI.leaves_box final) (fun _ => False).
+Proof. exact (GI.gen_inline_replaced_box_width_height O bw bh rest cb final). Qed.
+Print Assumptions C13_source_inline_replaced_box_width_height.
+
+Theorem C13_source_inline_plan bw bh :
+  GI.wh_plan bw bh =
+  (match bw, bh with
+   | None, None => ["replaced_box_width.without_min_max"; "replaced_box_height.without_min_max"; "min_max_auto_replaced"]
+   | _, _ => ["replaced_box_width"; "replaced_box_height"]
+   end)%string.
+Proof. exact (GI.wh_plan_cases bw bh). Qed.
+Print Assumptions C13_source_inline_plan.
+
+(* the two linked: inline_replaced_box_layout whose callee inline_replaced_box_width_height is answered by that
+   function's own regenerated body (GIL.linked_to O O1; such operations exist: C13_source_inline_linked_exists).
+   GIL.lbox bw bh mt mr mb ml rest: the box (width, height, the four margins, anything else); GIL.lbox_used: the same
+   with the used margins.  The function leaves the box that the plan (GI.wh_plan bw bh, see above) leaves when it
+   starts from the box with the USED margins. *)
+Require WV.proofs.C13_gen_inline_link.
+Module GIL := WV.proofs.C13_gen_inline_link.
+
+Theorem C13_source_inline_layout_linked (O O1 : Py.qops) bw bh mt mr mb ml rest cb final :
+  GI.is_value cb -> GIL.linked_to O O1 ->
+  GI.plan_run O1 (GI.wh_plan bw bh) cb (GIL.lbox_used bw bh mt mr mb ml rest) final ->
+  Py.run O GenInlineReplaced.inline_replaced_box_layout_body
+    [("box", GIL.lbox bw bh mt mr mb ml rest); ("containing_block", cb)]%string
+    (GI.leaves_box final) (fun _ => False).
+Proof. exact (GIL.gen_inline_layout_linked O O1 bw bh mt mr mb ml rest cb final). Qed.
+Print Assumptions C13_source_inline_layout_linked.
+
+Theorem C13_source_inline_linked_exists (O1 : Py.qops) : exists O, GIL.linked_to O O1.
+Proof. exact (GIL.linked_ops_exist O1). Qed.
+Print Assumptions C13_source_inline_linked_exists.
